@@ -67,7 +67,7 @@ def acceptedFloatText (s : String) : Bool := (parseDouble s).isSome
 
 /-- the `FormatFloat(x,'f',-1,64)` texts of finite doubles (shape; and within the double range,
 which is all that `acceptedFloatText` adds for a text of this shape:
-`Acme.Dbc.isFloatShape_readFloat`) -/
+`Acme.Dbc.isFloatShape_readFloat`, `Acme.Dbc.finiteFloatText_iff_range`) -/
 def finiteFloatText (s : String) : Bool := isFloatShape s.toList && acceptedFloatText s
 
 /-! ## tagged-union discipline
@@ -347,11 +347,13 @@ def DbcWFParsed (_hex : Bool) (f : File) : Prop := fileOK acceptedFloatText f = 
 instance (hex : Bool) (f : File) : Decidable (DbcWFParsed hex f) :=
   inferInstanceAs (Decidable (fileOK acceptedFloatText f = true))
 
-/-- attribute defaults / values are in the form the parser produces (`retag` is the identity):
-the hypothesis of `C08_norm_id` -/
+/-- attribute defaults / values are in the form the parser produces: `retag` is the identity
+(`hex`-typed values only in hex-number mode, no `float` whose text is an integer text) and an
+attribute value carries only the object fields its kind selects (`withVal v.val = v`; implied by
+`DbcWF`).  The hypothesis of `C08_norm_id`. -/
 def AttrNormal (hex : Bool) (f : File) : Prop :=
   (∀ d ∈ f.attributeDefaults, retag hex d.val = d.val) ∧
-  (∀ v ∈ f.attributeValues, retag hex v.val = v.val)
+  (∀ v ∈ f.attributeValues, retag hex v.val = v.val ∧ v.withVal v.val = v)
 
 /-! ## scanner image -/
 
